@@ -275,12 +275,12 @@ def run(ctx):
         for f in futs:
             outs.append(f.result())
     envs = {}; posix = set(); codes = {}
+    kept, dropped = C.cap_violations([v for o in outs for v in o.viol])
+    for what, case in kept:
+        ctx.violation(what, case)
+    if dropped:
+        ctx.notes.append('%d further violations of the same (command, kind) not written as replays' % dropped)
     for o in outs:
-        kept, dropped = C.cap_violations(o.viol)
-        for what, case in kept:
-            ctx.violation(what, case)
-        if dropped:
-            ctx.notes.append('%d further violations of the same (world, command) not written as replays' % dropped)
         for stream, key, nt, tags in o.counts:
             ctx.count(stream, key=key, nontrivial=nt, tags=tags)
         for s_ in o.samples:
